@@ -388,6 +388,11 @@ def _race_stress(ctx):
     return None
 
 PROPS["C03"] = dict(
+    claim=dict(
+        text="PARTIAL. Machine-checked proof (Coq 8.16) over interleaving models of the state requests share: (A) for every router with a coherent cache, every family of request threads and EVERY schedule of their atomic cache actions (Get; later, after the pure dynamic match, Set - other requests in between), the cache stays coherent and each thread answers exactly what it answers alone on the cache-free router (C03_lookups_independent, C03_finished_thread_solo); (B) on a slice memory model where append writes into shared spare capacity, with the fresh-slice chain assembly of the current code every finished request ran exactly globals ++ its route middleware ++ its main handler, for every schedule, growth policy and globals slice (C03_chains_independent); (C) the context pool never holds a context twice nor one in use when every put releases a context in use (C03_pool); (D) no two accesses of different requests conflict except under the exclusive cache lock (C03_race_free, over footprint annotations of the request-time actions). The defects repaired in /repo (shared-capacity append F11, Get under RLock F12, router fields assigned during requests F13, double pool release F16) are kept as refuted witnesses against legacy variants of the models. Tie to the code: a controlled scheduler runs 2..3 requests in goroutines whose handlers yield at every boundary and drives sampled (thorough: all short) schedules over router shapes with several Use calls, group/route middleware, tiny caches, 404/405/HEAD; every request's trace, parameters and response must equal its solo run on a fresh identical router; plus a race-detector stress run whose reports inside package rux are violations.",
+        note="PARTIAL: the Go memory model below the model's action granularity, sync.Pool's and sync.RWMutex's own correctness and the completeness of the footprint annotations are not proved; the four models are separate (no single product simulation of the dispatcher); the race-detector run and the scheduler runs are exploration. Trusted: Coq kernel, harness (scheduler, race build), Go race detector.",
+        technique="Coq proofs over interleaving models (schedule induction with coherence / heap / pool invariants, footprint case analysis) + controlled-scheduler differential runs + race-detector stress"),
+    theorems=["C03_lookups_independent", "C03_finished_thread_solo", "C03_chains_independent", "C03_pool", "C03_race_free"],
     n=dict(quick=400, thorough=6000),
     consts=[],
     extra=[("race-stress", _race_stress)],
